@@ -135,12 +135,25 @@ func c13Gen(t *tape.Tape, ownProp func(string) bool) (prelude, recv string, step
 		s1, s2, s3 := next(), next(), next()
 		// the methods' results depend on every argument they receive, so a dropped or
 		// reordered argument shows in the value
-		prelude = fmt.Sprintf("o := {_pm: m{|a| S(%d); .bear({lp: a})}, ma: m{|a| S(%d); .bear({la: a})}, mb: m{|a, k: 0, j: 5, _p: 2| S(%d); .bear({lb: [a, k, j, _p, \\_]})}, mi: m{S(%d); 7}, mf: m{|n| S(%d); {|x| x + n}}, v: 3}\n", s1, s1, s2, s3, s3)
+		prelude = fmt.Sprintf("o := {_pm: m{|a| S(%d); .bear({lp: a})}, ma: m{|a| S(%d); .bear({la: a})}, mb: m{|a, k: 0, j: 5, _p: 2| S(%d); .bear({lb: [a, k, j, _p, \\_]})}, mi: m{S(%d); 7}, mf: m{|n| S(%d); {|x| x + n}}, mc: m{|f| S(%d); .bear({lc: f(2)})}, v: 3}\n", s1, s1, s2, s3, s3, s1)
 		recv = "o"
 		for i := 0; i < k; i++ {
 			last := i == k-1
 			switch t.Pick(3, 3, 2, 1, 1, 1) {
 			case 0:
+				if t.Chance(1, 5) {
+					// arguments through `*[...]`, a function as argument, a trailing block
+					if t.Chance(1, 4) {
+						steps = append(steps, c13Step{"method-kw", fmt.Sprintf(".mb(*[%d], **{k: %d})", t.Intn(9), t.Intn(9)), s2})
+						break
+					}
+					steps = append(steps, c13Step{"method", []string{
+						fmt.Sprintf(".ma(*[%d])", t.Intn(9)),
+						fmt.Sprintf(".mc {|x| x + %d}", t.Intn(9)),
+						fmt.Sprintf(".mc({|x| x * %d})", 1+t.Intn(5)),
+					}[t.Intn(3)], s1})
+					break
+				}
 				if t.Chance(1, 4) {
 					// a method with a private name is a step like any other
 					steps = append(steps, c13Step{"method", fmt.Sprintf("._pm(%d)", t.Intn(9)), s1})
